@@ -3,7 +3,7 @@
    contract of the bounded readers; the code is tied to it by the hostile-input
    stream under ASan+UBSan with exactly-sized heap inputs and a counting
    allocator. *)
-From Nop Require Import Spec Sim EncSpec ScalarRT DecSpec Readers Lang Sound.
+From Nop Require Import Spec Sim EncSpec ScalarRT DecSpec Readers Lang Sound Alloc.
 Local Open Scope N_scope.
 
 (* Reading over the buffer reader model (BufferReader after its repair,
@@ -56,3 +56,19 @@ Theorem C02_array_extent_and_buffer_capacity :
   (forall ca cap sk t' vs, has_shape (TSeq (CLBuf ca cap sk false) t') (VSeq vs) = true -> nlen vs <= cap).
 Proof. split; [exact shape_array|exact shape_lbuf]. Qed.
 Print Assumptions C02_array_extent_and_buffer_capacity.
+
+(* Never allocates more than a type-dependent constant multiple of the input length, at the
+   level of the model: for EVERY input and schema, the number of container elements (of
+   sequences, strings, maps, tuples and structures, at every nesting depth, also inside
+   table entries) in a successfully decoded value is at most the number of bytes the read
+   consumed.  A destination allocates (elements) x (object size of the element type). *)
+Theorem C02_elements_bounded_by_input : forall t (bs : bytes) v rest,
+  dec t lr_ops bs = Ok v rest -> nlen rest + vweight v + 1 <= nlen bs.
+Proof. exact dec_weight. Qed.
+Print Assumptions C02_elements_bounded_by_input.
+
+(* ... over any reader whose remaining input can be measured, and BoundedReader preserves that *)
+Theorem C02_elements_bounded_any_reader : forall t p R (o : rops R) rem, measured o rem ->
+  forall r v r', decp t p R o r = Ok v r' -> rem r' + vweight v <= rem r.
+Proof. exact decp_weight. Qed.
+Print Assumptions C02_elements_bounded_any_reader.
